@@ -462,7 +462,9 @@ pub fn predictor_builders() -> Vec<(&'static str, Builder)> {
         let m = KMeans::params_with_rng(3, xrng!(42)).max_n_iterations(50).tolerance(1e-6).fit(&ds).map_err(es)?;
         Ok(sub1!("kmeans-l2-f64", m, 3, true, usizec(), f64, |m: &KMeans<f64, L2Dist>, x: &Array2<f64>| {
             let t: Array1<f64> = m.transform(x);
-            vec![("transform".to_string(), t.iter().map(|v| vec![*v]).collect())]
+            // the single-observation calling form (one-dimensional record -> one label)
+            let ix1: Vec<Vec<f64>> = x.outer_iter().map(|r| { let l: usize = m.predict(&r); vec![l as f64] }).collect();
+            vec![("transform".to_string(), t.iter().map(|v| vec![*v]).collect()), ("=predict-single-observation-form".to_string(), ix1)]
         }))
     }));
     v.push(("kmeans-l1-f64-plusplus", |seed| {
